@@ -233,7 +233,9 @@ def gen_cases(rnd, tier):
             else:
                 npg = rnd.choice([1, 2, 3])
             pat = rnd.choice(patterns)
-            yield dict(proto=proto, n=n, xoprob=xo, xconfig=xconfig, nmating=nm, nprogeny=npg,
+            # several chromosomes (sorted group labels), any crossover probability at a chromosome start, exact 0 included
+            chrgrp = sorted(rnd.randrange(1, 4) for _ in range(p)) if rnd.random() < 0.5 else None
+            yield dict(proto=proto, n=n, xoprob=xo, xconfig=xconfig, nmating=nm, nprogeny=npg, chrgrp=chrgrp,
                        nself=rnd.choice([0, 0, 1, 2]), pattern=pat, seed=rnd.randrange(10 ** 6),
                        pc0=rnd.choice([0, 0, 5, 123456]), fc0=rnd.choice([0, 3]))
 
